@@ -14,6 +14,7 @@ import (
 	"encoding/json"
 	"flag"
 	"fmt"
+	"math/big"
 	"os"
 	"path/filepath"
 	"sort"
@@ -24,6 +25,7 @@ import (
 	"com.tuntun.rangers/node/src/consensus/access"
 	"com.tuntun.rangers/node/src/consensus/base"
 	"com.tuntun.rangers/node/src/consensus/groupsig"
+	bn "com.tuntun.rangers/node/src/consensus/groupsig/bn256"
 	"com.tuntun.rangers/node/src/consensus/logical"
 	"com.tuntun.rangers/node/src/consensus/logical/group_create"
 	"com.tuntun.rangers/node/src/consensus/model"
@@ -137,6 +139,21 @@ func newWorld(salt int64, scratch string) *world {
 
 var msgSeq int
 
+func g1Of(b []byte) *bn.G1 {
+	g := new(bn.G1)
+	if _, err := g.Unmarshal(b); err != nil {
+		vutil.Fatalf("harness: cannot parse a share: %v", err)
+	}
+	return g
+}
+
+// shifted returns (a + d, b - d).
+func shifted(a, b groupsig.Signature, d *bn.G1) (groupsig.Signature, groupsig.Signature) {
+	ap := new(bn.G1).Add(g1Of(a.Serialize()), d)
+	bp := new(bn.G1).Add(g1Of(b.Serialize()), new(bn.G1).Neg(d))
+	return *groupsig.DeserializeSign(ap.Marshal()), *groupsig.DeserializeSign(bp.Marshal())
+}
+
 // build constructs the real message of a class. Returns the message and the hash / shares it carries.
 func (w *world) build(m tmsg, wire bool) (*model.ConsensusVerifyMessage, common.Hash, []byte, []byte) {
 	s := m.Sender
@@ -162,6 +179,13 @@ func (w *world) build(m tmsg, wire bool) (*model.ConsensusVerifyMessage, common.
 		rnd = groupsig.Sign(sk, w.otherRnd)
 	case "emptyRand":
 		rnd = groupsig.Signature{}
+	case "swapped": // the two shares in each other's field: each invalid where it stands, their sum unchanged
+		share, rnd = rnd, share
+	case "shiftRandom": // block share + D, beacon share - D for a point D nobody can relate to the shares
+		d := g1Of(groupsig.Sign(w.outSK, []byte(fmt.Sprintf("D-%d", msgSeq))).Serialize())
+		share, rnd = shifted(share, rnd, d)
+	case "shiftSmall": // the same with D = the generator of G1
+		share, rnd = shifted(share, rnd, new(bn.G1).ScalarBaseMult(big.NewInt(1)))
 	default:
 		vutil.Fatalf("unknown kind %q", m.Kind)
 	}
@@ -330,7 +354,7 @@ func main() {
 	}
 	tr.Close()
 	fmt.Printf("c15: histories=%d wire=%d messages=%d recovered=%d", len(hists), nwire, nmsg, nrec)
-	for _, k := range []string{"honest", "otherHash", "replay", "garbage", "offcurve", "badRand", "emptyRand", "nonMember"} {
+	for _, k := range []string{"honest", "otherHash", "replay", "garbage", "offcurve", "badRand", "emptyRand", "swapped", "shiftRandom", "shiftSmall", "nonMember"} {
 		fmt.Printf(" %s=%d", k, kinds[k])
 	}
 	fmt.Printf(" events=%d\n", tr.N)
